@@ -223,6 +223,10 @@ pub struct W3Run {
     pub pending_responses: Vec<(i64, u8, Vec<u8>)>, // (time, responder address, bytes)
     pub last_effective: bool,
     pub stalls_used: Vec<(usize, u32)>,
+    pub horizon_us: i64,
+    pub faults_used: Vec<String>,
+    /// restart a crashed station at this time (fresh station going online)
+    pub restart_at: Vec<Option<i64>>,
 }
 
 const ENV_PORT_OFFSET: usize = 0;
@@ -269,11 +273,14 @@ impl W3Run {
             pending_responses: vec![],
             last_effective: false,
             stalls_used: vec![],
+            horizon_us: cfg.horizon_us,
+            faults_used: vec![],
+            restart_at: vec![None; n],
         }
     }
 
     pub fn done(&self) -> bool {
-        self.now >= self.cfg.horizon_us || self.panic.is_some()
+        self.now >= self.horizon_us || self.panic.is_some()
     }
 
     pub fn addr_of_port(&self, port: u8) -> u8 {
@@ -339,6 +346,18 @@ impl W3Run {
                         return (i, false);
                     }
                 }
+            }
+        }
+        if self.crashed[i] {
+            match self.restart_at[i] {
+                Some(rt) if t >= rt => {
+                    self.restart_at[i] = None;
+                    self.crashed[i] = false;
+                    self.stations[i] = FdlActiveStation::new(self.cfg.params(sc.addr));
+                    self.stations[i].set_online();
+                    self.bus.flush_port(i as u8, t);
+                }
+                _ => return (i, false),
             }
         }
         if !self.online[i] {
@@ -520,6 +539,7 @@ pub fn tokens_in(run: &W3Run, from_us: i64, to_us: i64) -> Vec<(u8, u8, i64)> {
 /// C02(a): the ring predicate on every sample in [converge_by, horizon] and on the token telegrams.
 pub fn c02_check(run: &W3Run) -> Result<(), (String, String)> {
     let cfg = &run.cfg;
+    let horizon_us = run.horizon_us;
     if run.samples.is_empty() {
         return Err(("c02.harness.no_samples".into(), "no samples were taken".into()));
     }
@@ -558,7 +578,7 @@ pub fn c02_check(run: &W3Run) -> Result<(), (String, String)> {
         v.sort();
         v
     };
-    let toks = tokens_in(run, first, cfg.horizon_us);
+    let toks = tokens_in(run, first, horizon_us);
     if toks.len() < online.len() * 2 {
         return Err(("c02.token_not_circulating".into(), format!("only {} token telegrams between {}us and the horizon", toks.len(), first)));
     }
